@@ -117,4 +117,4 @@ def main(tier, seed):
                             'file': bytes(t['text']).decode('latin-1')[:200], 'observed_status': t['status'], 'observed_matching': t['matching']})
     rep.assumptions = ['real CBC is used for every LP run of this check', 'generated counts <= 4 so that brute force and TLC-side enumeration are feasible']
     return rep.finish(exhaustive=False, rule='legal generator argument vectors enumerated by TLC, a fixed fraction driven through the real generator and the '
-                                             'real solver (6-8 option sets per file, real CBC and -bf); non-trivial = at least 2 admissible matchings or -bf')
+                                             'real solver (6-8 option sets per file, real CBC and -bf); non-trivial = the specification leaves at least 2 optimal matchings to choose from, or -bf')
